@@ -23,6 +23,9 @@ type Exec struct {
 
 	partialsEver uint64 // partial compactions of store instances closed so far
 
+	topBatches int // non-empty batches executed since the merger's last ingest
+	ingestSeen int // merger.ingested crossings at the last look
+
 	Store *moss.Store
 	Coll  moss.Collection
 	Lower *Lower
@@ -103,6 +106,7 @@ func (e *Exec) LastBgErr() string {
 // Open opens (or reopens) the instance according to the configuration.
 func (e *Exec) Open() error {
 	e.D.NewInstance()
+	e.topBatches, e.ingestSeen = 0, e.D.Cross("merger.ingested")
 	if e.Steered && !e.ReadOnly {
 		e.D.ArmSteering()
 	}
@@ -379,11 +383,24 @@ func (e *Exec) ExecBatch(mb *model.Batch) error {
 		return fmt.Errorf("ExecuteBatch: %v", err)
 	}
 	if !mb.Empty() {
+		e.noteIngests()
+		e.topBatches++
+	}
+	if !mb.Empty() {
 		e.World.Apply(mb)
 		e.Uni.AddBatch(nil, mb)
 		e.recordHist(nil, mb, e.World.N())
 	}
 	return nil
+}
+
+// noteIngests resets the count of batches sitting in the dirty top when the
+// merger has ingested since the last look (hook merger.ingested).
+func (e *Exec) noteIngests() {
+	if c := e.D.Cross("merger.ingested"); c != e.ingestSeen {
+		e.ingestSeen = c
+		e.topBatches = 0
+	}
 }
 
 // makeRoom runs directed cycles until a batch can be accepted without
@@ -394,7 +411,11 @@ func (e *Exec) makeRoom() error {
 		if err != nil {
 			return err
 		}
-		if int(st.CurDirtyTopSegments) < e.Cfg.MaxPre() {
+		// Every accepted batch counts against MaxPreMergerBatches, also one
+		// that adds no segment anywhere (child creation / deletion only), so
+		// the gauge alone does not say whether the next batch would block.
+		e.noteIngests()
+		if int(st.CurDirtyTopSegments) < e.Cfg.MaxPre() && e.topBatches < e.Cfg.MaxPre() {
 			return nil
 		}
 		r := e.MergerCycle("plain", "")
